@@ -342,3 +342,39 @@ def encode_ccase(tr, max_legs=None):
 
 COMPOSITE_HEADER = ("Require Import JF.Base.F64 JF.Model.Kinematics JF.Model.Composite.\n"
                     "From Coq Require Import ZArith.")
+
+
+def factor_handlers(meta):
+    return [hi for hi in range(len(meta["handlers"])) if TC.handler_kind(meta, hi) in ("interaction", "cell_veto")]
+
+
+def encode_stcase(tr, max_legs=None):
+    meta = tr["meta"]
+    fh = set(factor_handlers(meta))
+    legs = []
+    for leg in tr["legs"][:max_legs]:
+        if leg.get("pick") is None or leg.get("out") is None or leg.get("delta") is None or leg.get("time") is None:
+            break
+        k = ("{| k_kind := %s; k_cands := %s; k_pick := %d; k_time := %s; k_out := %s; k_trash := %s; "
+             "k_after := %s |}" % (
+                 KIND_COQ[TC.handler_kind(meta, leg["pick"])],
+                 C.coq_list(["(%d, %s)" % (h, coq_ftime(t)) for h, t in leg["cands"]]),
+                 leg["pick"], coq_ftime(leg["time"]),
+                 C.coq_list([coq_unit(u) for u in leg["out"]]),
+                 coq_nat_list(leg["trash"]),
+                 C.coq_list([coq_unit(u) for u in leg["delta"]])))
+        ins = []
+        for hs, units in leg["instates"].items():
+            if int(hs) in fh and units is not None:
+                ins.append("(%d, %s)" % (int(hs), C.coq_list([coq_unit(u) for u in units])))
+        legs.append("{| sl_k := %s; sl_instates := %s |}" % (k, C.coq_list(ins)))
+    if not legs:
+        return None
+    return "{| st_L := %s; st_init := %s; st_factor_handlers := %s; st_legs := %s |}" % (
+        C.coq_list([fbz(b) for b in meta["system_lengths"]]),
+        C.coq_list([coq_unit(u) for u in tr["init_state"]]),
+        coq_nat_list(sorted(fh)), C.coq_list(legs))
+
+
+STALE_HEADER = ("Require Import JF.Base.F64 JF.Model.Kinematics JF.Model.Stale.\n"
+                "From Coq Require Import ZArith.")
